@@ -287,7 +287,7 @@ def gen_runs(quick):
             ("hash N<=3 rich", dict(N=3, K=2, Leaves='{"string", "int"}', UKinds='{"user"}', Modes='{"hash"}', Decos="{0, 1}")),
             ("hash N<=4", dict(N=4, K=2, Leaves='{"string"}', UKinds='{"user"}', Modes='{"hash"}', Decos="{0}")),
             ("hash N<=3 3 attributes", dict(N=3, K=3, Leaves='{"string"}', UKinds='{"user"}', Modes='{"hash"}', Decos="{0}")),
-            ("dup N<=3 results", dict(N=3, K=2, Leaves='{"string"}', UKinds='{"result"}', Modes='{"dup"}', Decos="{0, 2}", Script='"paired"')),
+            ("dup N<=3 results", dict(N=3, K=2, Leaves='{"string"}', UKinds='{"result"}', Modes='{"dup"}', Decos="{2}", Script='"paired"')),
         ]
     return runs
 
